@@ -247,15 +247,15 @@ def analyse (n : Nat) (g : Node.Graph) (st : CStats) : CStats :=
             maxExcess := res.2.1, ratioNum := res.2.2.1, ratioDen := res.2.2.2.1,
             notSimple := st.notSimple + res.2.2.2.2.1, stepsViolated := st.stepsViolated + res.2.2.2.2.2 }
 
-/-- `closure <n> <limit>` : every state reachable from the empty graph on nodes 0..n-1 by any sequence of links `a + b`
-(`a ≠ b`; a state = neighbour lists in order + tables), explored breadth first until no new state appears (or more than
-`limit` states were seen): number of states, of states / pairs routed along a non-shortest chain, worst detour (hops - distance),
+/-- `closure <n> <limit> <rounds>` : every state reachable from the empty graph on nodes 0..n-1 by any sequence of links `a + b`
+(`a ≠ b`; a state = neighbour lists in order + tables), explored breadth first for at most `rounds` rounds (`complete=1` when no new state appeared in the last one; `limit`
+when more than `limit` states were seen): number of states, of states / pairs routed along a non-shortest chain, worst detour (hops - distance),
 worst stretch (hops / distance), number of rounds -/
 def closureOp (args : List String) : String :=
   match args with
-  | [n, limit] =>
-    match n.toNat?, limit.toNat? with
-    | some n, some limit =>
+  | [n, limit, rounds] =>
+    match n.toNat?, limit.toNat?, rounds.toNat? with
+    | some n, some limit, some rounds =>
       let pairs := (List.range n).flatMap (fun a => ((List.range n).filter (· ≠ a)).map (fun b => (a, b)))
       let fuel := n + 2
       let g0 : Node.Graph := []
@@ -275,12 +275,11 @@ def closureOp (args : List String) : String :=
                 (g' :: acc.1, acc.2.1.insert k, stats, acc.2.2.2 || stats.states > limit)) acc)
           ([], st.2.1, st.2.2.1, false)
         (r.1.reverse, r.2.1, r.2.2.1, st.2.2.2.1 + 1, r.2.2.2)
-      let fin := (List.range (4 * n * n + 4)).foldl round ([g0], seen0, {}, 0, false)
+      let fin := (List.range rounds).foldl round ([g0], seen0, {}, 0, false)
       let cs := fin.2.2.1
       if fin.2.2.2.2 then s!"limit states={cs.states}"
-      else if !fin.1.isEmpty then "open"
-      else s!"states={cs.states} nonshort_states={cs.nonshortStates} nonshort_pairs={cs.nonshortPairs} maxexcess={cs.maxExcess} maxratio={cs.ratioNum}/{cs.ratioDen} notsimple={cs.notSimple} stepsviolated={cs.stepsViolated} rounds={fin.2.2.2.1}"
-    | _, _ => "bad-op"
+      else s!"states={cs.states} nonshort_states={cs.nonshortStates} nonshort_pairs={cs.nonshortPairs} maxexcess={cs.maxExcess} maxratio={cs.ratioNum}/{cs.ratioDen} notsimple={cs.notSimple} stepsviolated={cs.stepsViolated} rounds={fin.2.2.2.1} complete={if fin.1.isEmpty then 1 else 0}"
+    | _, _, _ => "bad-op"
   | _ => "bad-op"
 
 /-- `sites` : labels of the regenerated registration sites, in the order of their indices -/
